@@ -71,21 +71,28 @@ def run_case(triple, where):
             info['conflicted'] = conflicted
             argv = H.argv_for(app, layout, p, strategy, where.get('explicit', True), where.get('pathname', True), with_out)
             outname = os.path.basename(p['out'])
+            fired, exc, stdout, crashed = False, None, None, None
+            damaged = bool(fault_step) and fault_step.split(':')[0] in ('missing', 'corrupt')
+            if damaged:
+                H.damage_input(fault_step, p)
+                fired = True
             before = H.snapshot(d)
-            fired, exc, stdout = False, None, None
             if mode == 'subproc':
                 rc, stdout, stderr = H.invoke_subprocess(app, argv, d, fault_step)
                 status, how = rc, 'process exit status %d' % rc
                 if fault_step:
                     fired = rc == -9
-                elif rc != 0 and 'Traceback (most recent call last)' in stderr:
-                    how += ' after a traceback ending in %r' % stderr.strip().splitlines()[-1][:160]
+                elif 'Traceback (most recent call last)' in stderr:
+                    last = stderr.strip().splitlines()[-1]
+                    crashed = (last.split(':')[0].split('.')[-1].strip() or 'Exception', last[:200])
+            elif damaged:
+                status, how, exc, stdout = H.invoke_inproc(app, argv)
             elif fault_step:
                 with H.inject(fault_step, p) as f:
-                    status, how, exc = H.invoke_inproc(app, argv)
+                    status, how, exc, stdout = H.invoke_inproc(app, argv)
                 fired = f.fired
             else:
-                status, how, exc = H.invoke_inproc(app, argv)
+                status, how, exc, stdout = H.invoke_inproc(app, argv)
             if isinstance(exc, H.HarnessError):
                 raise common.CheckerDefect('fault injector misbehaved: %r' % (exc,))
             after = H.snapshot(d)
@@ -111,6 +118,10 @@ def run_case(triple, where):
                 return fails, info
 
             # ---- no fault struck: the full contract applies
+            if crashed:
+                fails.append(('crash:%s@subprocess' % crashed[0], '%s: valid inputs, library merge succeeds, but the process died with a traceback '
+                              '(exit status %d): %s' % (desc, status, crashed[1])))
+                return fails, info
             if exc is not None:
                 fails.append(('crash:' + exc_site(exc), '%s: valid inputs, library merge succeeds, but main() raised %s' % (desc, exc_summary(exc))))
                 return fails, info
@@ -167,18 +178,25 @@ def plan_for_triple(seed, n, ti, steps_mod):
         s1 = CORE[(ti + ai) % len(CORE)]
         s2 = rnd.choice(allst)
         base = {'seed': seed, 'n': n, 'index': ti, 'app': app, 'layout': layout, 'mode': 'inproc',
-                'pre_out': bool((ti + ai) % 2), 'pathname': bool((ti // 2) % 2), 'explicit': bool(ti % 3)}
+                'pre_out': rnd.random() < 0.6, 'pathname': rnd.random() < 0.5, 'explicit': rnd.random() < 0.7}
         out.append(dict(base, strategy=list(s1), fault=None))
         out.append(dict(base, strategy=list(s2), fault=None))
-        if layout != 'samestat' and ti % 4 == ai:
+        if app == 'cli' and layout != 'del-both' and rnd.random() < 0.3:
+            out.append(dict(base, strategy=list(s2), fault=None, with_out=False, pre_out=False))
+        if layout != 'samestat' and rnd.random() < 0.25:
             out.append(dict(base, layout='samestat', strategy=list(s1), fault=None))
         steps = H.STEPS_DELBOTH if layout == 'del-both' else H.STEPS_MERGE
         placeholders = {'null-base': ['base'], 'no-base-arg': ['base'], 'del-local': ['local'], 'del-remote': ['remote'],
                         'del-both': ['local', 'remote']}.get(layout, [])
-        steps = [s for s in steps if not (s.startswith('read:') and s[5:] in placeholders)]
-        if steps_mod > 1:
-            steps = [s for k, s in enumerate(steps) if (k + ti) % steps_mod == 0]
-        fs = s1 if ti % 2 == 0 else s2
+        steps = [s for s in steps if s.split(':')[1:2] not in [[x] for x in placeholders] or s.split(':')[0] not in ('read', 'missing', 'corrupt')]
+        if layout == 'empty-base':
+            steps = [s for s in steps if s != 'corrupt:base']
+        if app == 'driver':
+            steps = [s for s in steps if s != 'missing:local']       # the local file is the output location itself
+        if steps_mod > 1 and layout != 'del-both':
+            off = rnd.randrange(steps_mod)
+            steps = [s for k, s in enumerate(steps) if (k + off) % steps_mod == 0]
+        fs = s1 if rnd.random() < 0.5 else s2
         for s in steps:
             out.append(dict(base, strategy=list(fs), fault=s))
     return out
@@ -236,7 +254,7 @@ def replay_case(where):
 def run_bounded(res):
     from bounded import c08_harness as H
     q = res.tier == 'quick'
-    njobs, ntriples, steps_mod, nsub = (32, 10, 1, 32) if q else (96, 40, 1, 128)
+    njobs, ntriples, steps_mod, nsub = (32, 10, 2, 24) if q else (96, 30, 1, 128)
     jobs = [('one', w) for w in subprocess_plan(res.seed, nsub)]
     jobs += [('batch', res.seed * 6007 + s, ntriples, steps_mod) for s in range(njobs)]
     seen = set()
@@ -297,8 +315,8 @@ def run_bounded(res):
         'written to files in a temp dir under a layout cycling through: CLI {plain, samestat (local/remote differ but identical size and mtime), empty-base '
         '(zero-byte), null-base (/dev/null), no-base-arg, del-local, del-remote, del-both (/dev/null placeholders)}, driver {plain, samestat, empty-base, '
         'null-base, del-remote}; pre-existing / absent --out file and presence of the pathname argument (%%P) alternate; per (triple, app): 2 strategy tables (9 fixed + random of the '
-        '4x5x7x2 CLI flag combinations) without fault, plus ONE fault per run at each step in turn: read of each non-placeholder input (OSError EIO at '
-        'read_notebook / nbformat.read / open), merge_notebooks, 1st and 2nd diff_notebooks, decide_merge_with_diff, apply_decisions (MemoryError), '
+        '4x5x7x2 CLI flag combinations) without fault, plus ONE fault per run at each step in turn: each non-placeholder input file missing, cut off in the middle, or failing to be read (OSError EIO at '
+        'read_notebook / nbformat.read / open), merge_notebooks, 1st and 2nd diff_notebooks, decide_merge_with_diff, apply_decisions (MemoryError / KeyboardInterrupt / RuntimeError), '
         'nbformat.write before writing (ENOSPC), opening the output (ENOSPC), 1st and 2nd write() to it (ENOSPC after half the data), close (EIO), '
         'KeyboardInterrupt after the write; del-both: read of base, os.remove of the output. Real subprocesses (python -m nbdime.nbmergeapp / '
         'nbdime.vcs.git.mergedriver): %d cases over all layouts incl. stdout output (no --out) and SIGKILL at merge / before write. '
